@@ -245,6 +245,14 @@ def seq_facts(elems, e2d, n, trans):
                 fal[k] = cur                                   # after the loop
                 tru[k] = block([c for c in el if isinstance(c.tag, str)], k)   # the body flows back to the loop head
                 cur = k
+            elif t == 'script':
+                m = _re.match(r'^[qQ](\d\d)$', (el.text or '').strip())
+                k = int(m.group(1)) if m and int(m.group(1)) not in kind and int(m.group(1)) > 0 else 0
+                if not k:
+                    ok[0] = False
+                kind[k] = 1
+                nxt[k] = cur
+                cur = k
             elif t in SEQ_ATTR:
                 k = num(el, SEQ_ATTR[t])
                 kind[k] = 1
